@@ -17,7 +17,7 @@ TEXT = {
     "C18": {
         "technique": "deterministic simulation with fault injection: seeded scheduler + open/read errors, missing/dangling entries, unlink at every scheduler step; -race side mode under the real scheduler",
         "design_ref": "DESIGN.md section 5 C18, section 3.3",
-        "level_text": "Fault enumeration inside seeded schedules: for every list of size <= 6 every position of one faulty entry x every fault kind (never-existing path, dangling link, ENOENT/EACCES/EMFILE/EIO at open, EIO mid-read, file unlinked by the simulator at every scheduler step of the dry-run trace in the thorough tier) plus random larger lists (to 4*NumCPU and one 10^4 list) with up to two faults; the scheduler detects deadlock (nothing runnable before return), leaked goroutines (blocked at bubble end) and livelock (step budget) by construction; a panic in a worker goroutine kills the worker process and is attributed through the case journal.",
+        "level_text": "Fault enumeration inside seeded schedules: for every list of size <= 6 every position of one faulty entry x every fault kind (never-existing path, dangling link, ENOENT/EACCES/EMFILE/EIO at open, EIO mid-read, file unlinked by the simulator at every scheduler step of the dry-run trace in the thorough tier) plus random larger lists (to 4*NumCPU and one 10^4 list) with up to two faults; the scheduler detects deadlock (nothing runnable before return), leaked goroutines (blocked at bubble end) and livelock (step budget) by construction; a panic in a worker goroutine kills the worker process and is attributed through the case journal. Two system-level parts: the same lists as literal dependencies of a task through the in-process CLI, and cachehist histories (missing literal dependencies, dangling symbolic links listed by a glob) in which the invocation must stop with a message.",
         "level_note": "Trusted: synctest's durable-blocking detection; Linux unlink-after-open semantics; data races are only looked for by the race-detector side mode under the real scheduler (a serialising scheduler hides them).",
     },
     "C01": {
